@@ -75,7 +75,17 @@ def main():
     metas = {os.path.basename(d): json.load(open(d + '/meta.json')) for d in seeded}
     results = {os.path.basename(d): (json.load(open(d + '/result.json')) if os.path.exists(d + '/result.json') else {}) for d in seeded}
     strengthened = [k for k, m in metas.items() if 'strengthened' in m]
-    nofail = [k for k, r in results.items() if 'no-failing-input-found' in json.dumps(r)]
+    def own_exit(k):
+        r = results.get(k) or {}
+        b = metas[k]['breaks']; b = b[0] if isinstance(b, list) else b
+        return (r.get(b) or {}).get('exit')
+    caught = [k for k in metas if own_exit(k) == 1]
+    missed = [k for k in metas if own_exit(k) != 1]
+    def only_nofail(k):
+        b = metas[k]['breaks']; b = b[0] if isinstance(b, list) else b
+        v = (results[k].get(b) or {}).get('violations') or []
+        return bool(v) and all('no-failing-input-found' in x for x in v)
+    nofail = [k for k in caught if only_nofail(k)]
     new = f'''## 12. As built (what the construction rounds changed, found and decided)
 
 Sections 1–11 were written before any framework code; this section records where the
@@ -160,9 +170,10 @@ models' arithmetic, and each led to a permanent extension:
 
 ''' + "\n".join(f"* `{k}`: " + metas[k]['strengthened'] for k in sorted(strengthened)) + f'''
 
-After these extensions every seeded change is caught by the quick check of its own property
-({len(seeded) - len(nofail)} with a concrete failing input; {len(nofail)} as a broken correspondence
-reported `no-failing-input-found`: {', '.join(sorted(nofail)) or 'none'}).
+At the last sweep {len(caught)} of {len(seeded)} are caught by the quick check of their own property
+({len(caught) - len(nofail)} with a concrete failing input; {len(nofail)} as a broken correspondence
+reported `no-failing-input-found`: {', '.join(sorted(nofail)) or 'none'}); not caught by their own
+property's check: {', '.join(sorted(missed)) or 'none'}.
 '''
     new += TRUSTED
     open(p, 'w').write(head + new)
